@@ -1,8 +1,8 @@
 #!/bin/sh
 # every seeded change must raise a VIOLATION for its property
 cd /verif
-for d in /var/tmp/seedsrc/*; do
-  id=$(basename $d); prop=$(echo $id | cut -c1-3)
+for d in /verif/seeded/*/; do
+  [ -f $d/patch.diff ] || continue; id=$(basename $d); prop=$(echo $id | cut -c1-3)
   git -C /repo apply $d/patch.diff 2>/dev/null || { echo "$id: patch does not apply"; continue; }
   out=$(./check $prop 2>&1 | grep -v "^KNOWN")
   git -C /repo checkout -- .
